@@ -1,17 +1,396 @@
-//! C19 — stub (monitor not written yet)
-use serde_json::Value;
+//! C19 — equality, hashing and ordering agree with the canonical string.
+//!
+//! Algebraic monitor over batches of values that are biased towards near-collisions: several
+//! spellings of one tuple (must collapse), tuples differing in one character or with one
+//! separator moved between adjacent fields (must not collapse, strings must differ).
 
-use super::Fail;
-use crate::obs::{Ctx, Tier};
+use std::borrow::Cow;
+use std::cmp::Ordering;
+use std::collections::hash_map::DefaultHasher;
+use std::collections::{BTreeSet, HashSet};
+use std::fmt::Debug;
+use std::hash::{Hash, Hasher};
+use std::str::FromStr;
 
-pub const RULE: &str = "";
+use purl::{GenericPurl, PackageType, PurlShape, SmallString};
+use serde::{Deserialize, Serialize};
+use serde_json::{json, Value};
 
-pub fn requirements(_tier: Tier) -> Vec<(&'static str, u64)> {
-    vec![("not-implemented", 1)]
+use super::{str_field, Fail};
+use crate::exec::{self, run_hist};
+use crate::gen;
+use crate::hist::{Call, CsVal, Hist};
+use crate::obs::{self, guard, Ctx, Out, Tier};
+use crate::rng::{fnv, Rng};
+use crate::spell;
+
+pub const RULE: &str = "a case is an ordered pair of PURL values of one type parameter inside a batch; non-trivial = the pair is a designed near-collision (two spellings / twins of one tuple, or tuples differing by one character or one moved separator); distinct by hash of the two canonical strings";
+
+pub fn requirements(tier: Tier) -> Vec<(&'static str, u64)> {
+    let q = tier == Tier::Quick;
+    vec![
+        ("batches", if q { 1_500 } else { 50_000 }),
+        ("pairs-compared", if q { 5_000_000 } else { 200_000_000 }),
+        ("equal-pairs-seen", 50_000),
+        ("near-collision-values", 50_000),
+        ("batches:String", 300),
+        ("batches:SmallString", 300),
+        ("batches:Cow", 300),
+        ("batches:PackageType", 300),
+        ("set-size-checks", 1_500),
+    ]
 }
 
-pub fn run(_ctx: &mut Ctx) {}
+/// Where a value comes from (for replay).
+#[derive(Clone, Debug, Serialize, Deserialize)]
+pub enum Src {
+    Parse(String),
+    Build { hist: Hist, borrowed: bool },
+}
 
-pub fn replay(_monitor: &str, _case: &Value) -> Result<Option<Fail>, String> {
-    Err("not implemented".into())
+fn hist_of(ty: &str, ns: &str, name: &str, ver: &str, quals: &[(String, String)], sub: &str) -> Hist {
+    let mut calls = Vec::new();
+    if !ns.is_empty() {
+        calls.push(Call::Ns(ns.to_string()));
+    }
+    if !ver.is_empty() {
+        calls.push(Call::Ver(ver.to_string()));
+    }
+    for (k, v) in quals {
+        calls.push(Call::Qual(k.clone(), v.clone()));
+    }
+    if !sub.is_empty() {
+        calls.push(Call::Sub(sub.to_string()));
+    }
+    Hist { ty: ty.to_string(), name: name.to_string(), calls }
+}
+
+#[derive(Clone, Debug)]
+struct Ft {
+    ty: String,
+    ns: String,
+    name: String,
+    ver: String,
+    quals: Vec<(String, String)>,
+    sub: String,
+}
+
+impl Ft {
+    fn hist(&self) -> Hist {
+        hist_of(&self.ty, &self.ns, &self.name, &self.ver, &self.quals, &self.sub)
+    }
+}
+
+fn word(r: &mut Rng) -> String {
+    match r.below(6) {
+        0 => gen::mixed_string(r, 1, 5, 60),
+        1 => r.pick(&["a", "b", "A", "n", "1", "x.y", "a-b", "A_b"]).to_string(),
+        _ => gen::mixed_string(r, 1, 4, 0),
+    }
+}
+
+/// Near-collision variants of `b` (each differs from `b` in a way that must or must not matter).
+fn variants(r: &mut Rng, b: &Ft, typed: bool) -> Vec<Ft> {
+    let mut v = vec![b.clone(), b.clone()];
+    // one character changed in one field
+    for _ in 0..3 {
+        let mut c = b.clone();
+        let f = match r.below(4) {
+            0 => &mut c.ns,
+            1 => &mut c.name,
+            2 => &mut c.ver,
+            _ => &mut c.sub,
+        };
+        let mut cs: Vec<char> = f.chars().collect();
+        if cs.is_empty() {
+            cs.push('z');
+        } else {
+            let i = r.below(cs.len());
+            cs[i] = *r.pick(&['z', 'Z', '/', '@', '?', '#', '&', '=', '%', '+', ' ', 'é', '.', ':']);
+        }
+        *f = cs.into_iter().collect();
+        v.push(c);
+    }
+    // separators moved between adjacent fields
+    let mut c = b.clone();
+    c.name = format!("{}/{}", if b.ns.is_empty() { "ns" } else { &b.ns }, b.name);
+    c.ns.clear();
+    v.push(c);
+    let mut c = b.clone();
+    c.ns = if b.ns.is_empty() { "ns".into() } else { b.ns.clone() };
+    v.push(c);
+    let mut c = b.clone();
+    c.name = format!("{}@{}", b.name, if b.ver.is_empty() { "1" } else { &b.ver });
+    c.ver.clear();
+    v.push(c);
+    let mut c = b.clone();
+    c.ver = if b.ver.is_empty() { "1".into() } else { b.ver.clone() };
+    v.push(c);
+    for sep in ['?', '#', '&', '=', '%', '+', ' '] {
+        // {k: "a<sep>l=c"} vs {k: "a", l: "c"}; version "1<sep>k=a" vs version "1" + {k: a}
+        let mut c = b.clone();
+        c.quals = vec![("k".into(), format!("a{sep}l=c"))];
+        v.push(c);
+        let mut c = b.clone();
+        c.quals = vec![("k".into(), "a".into()), ("l".into(), "c".into())];
+        v.push(c);
+        let mut c = b.clone();
+        c.ver = format!("1{sep}k=a");
+        c.quals.clear();
+        v.push(c);
+        let mut c = b.clone();
+        c.ver = "1".into();
+        c.quals = vec![("k".into(), "a".into())];
+        v.push(c);
+        let mut c = b.clone();
+        c.name = format!("{}{sep}s", b.name);
+        c.sub.clear();
+        v.push(c);
+        let mut c = b.clone();
+        c.quals = vec![("k".into(), format!("v{sep}s"))];
+        c.sub.clear();
+        v.push(c);
+    }
+    let mut c = b.clone();
+    c.sub = "s".into();
+    v.push(c.clone());
+    c.quals = vec![("k".into(), "v".into())];
+    v.push(c);
+    // things that must collapse: key case, type case, empty-valued qualifier, literal escapes do NOT collapse
+    let mut c = b.clone();
+    c.quals = b.quals.iter().map(|(k, v)| (k.to_ascii_uppercase(), v.clone())).collect();
+    v.push(c);
+    let mut c = b.clone();
+    c.quals.push(("zzempty".into(), String::new()));
+    v.push(c);
+    if !typed {
+        let mut c = b.clone();
+        c.ty = b.ty.to_ascii_uppercase();
+        v.push(c);
+    } else {
+        // name-rule collapses (pypi, nuget) and non-collapses (others)
+        let mut c = b.clone();
+        c.name = b.name.replace('-', "_").to_uppercase();
+        v.push(c);
+        let mut c = b.clone();
+        c.name = b.name.replace('-', "..");
+        v.push(c);
+    }
+    let mut c = b.clone();
+    c.name = b.name.replace('a', "%61");
+    v.push(c);
+    let mut c = b.clone();
+    c.ns = format!("{}/", b.ns);
+    v.push(c);
+    let mut c = b.clone();
+    c.ns = b.ns.replace('/', "//");
+    v.push(c);
+    // checksum spelled differently (order / case): must collapse
+    let mut c = b.clone();
+    c.quals = vec![("checksum".into(), "B:FF,a:00".into())];
+    v.push(c);
+    let mut c = b.clone();
+    c.quals = vec![("Checksum".into(), "a:00,b:ff".into())];
+    v.push(c);
+    v
+}
+
+fn hash_of<T: Hash>(v: &T) -> u64 {
+    let mut h = DefaultHasher::new();
+    v.hash(&mut h);
+    h.finish()
+}
+
+/// All algebraic clauses on a batch. Returns the first failure with the indices involved.
+pub fn check_batch<T>(vals: &[(GenericPurl<T>, String)]) -> (u64, u64, Option<(Fail, Vec<usize>)>)
+where
+    T: PurlShape + Clone + Eq + Hash + Ord + Debug,
+{
+    let mut pairs = 0u64;
+    let mut equal = 0u64;
+    let n = vals.len();
+    for i in 0..n {
+        for j in 0..n {
+            pairs += 1;
+            let (a, sa) = &vals[i];
+            let (b, sb) = &vals[j];
+            let eq = a == b;
+            let seq = sa == sb;
+            if eq && i != j {
+                equal += 1;
+            }
+            if eq != seq {
+                let kind = if seq { "same-string-but-unequal" } else { "equal-but-different-strings" };
+                return (pairs, equal, Some((Fail::tagged(kind, "", format!("values printing as {sa:?} and {sb:?}: == is {eq}")), vec![i, j])));
+            }
+            if eq && hash_of(a) != hash_of(b) {
+                return (pairs, equal, Some((Fail::tagged("equal-but-hash-differs", "", format!("{sa:?} == {sb:?} but their hashes differ")), vec![i, j])));
+            }
+            let c = a.cmp(b);
+            if (c == Ordering::Equal) != eq {
+                return (pairs, equal, Some((Fail::tagged("cmp-equal-disagrees-with-eq", "", format!("{sa:?} vs {sb:?}: cmp = {c:?}, == is {eq}")), vec![i, j])));
+            }
+            if a.partial_cmp(b) != Some(c) {
+                return (pairs, equal, Some((Fail::tagged("partial-cmp-disagrees-with-cmp", "", format!("{sa:?} vs {sb:?}")), vec![i, j])));
+            }
+            if b.cmp(a) != c.reverse() {
+                return (pairs, equal, Some((Fail::tagged("order-not-antisymmetric", "", format!("{sa:?} vs {sb:?}: cmp = {c:?}, reverse cmp = {:?}", b.cmp(a))), vec![i, j])));
+            }
+        }
+    }
+    // transitivity / totality: sort, then every earlier element must be <= every later one
+    let mut idx: Vec<usize> = (0..n).collect();
+    idx.sort_by(|&x, &y| vals[x].0.cmp(&vals[y].0));
+    for a in 0..n {
+        for b in (a + 1)..n {
+            pairs += 1;
+            if vals[idx[a]].0.cmp(&vals[idx[b]].0) == Ordering::Greater {
+                return (
+                    pairs,
+                    equal,
+                    Some((Fail::tagged("order-not-transitive", "", format!("after sorting, {:?} precedes {:?} although it compares greater", vals[idx[a]].1, vals[idx[b]].1)), (0..n).collect())),
+                );
+            }
+        }
+    }
+    // de-duplication by value and by string agree
+    let hs: HashSet<&GenericPurl<T>> = vals.iter().map(|(p, _)| p).collect();
+    let bs: BTreeSet<&GenericPurl<T>> = vals.iter().map(|(p, _)| p).collect();
+    let ss: HashSet<&String> = vals.iter().map(|(_, s)| s).collect();
+    if hs.len() != ss.len() || bs.len() != ss.len() {
+        return (
+            pairs,
+            equal,
+            Some((Fail::tagged("set-sizes-differ", "", format!("HashSet<T> has {} elements, BTreeSet<T> {}, HashSet<String> {}", hs.len(), bs.len(), ss.len())), (0..n).collect())),
+        );
+    }
+    (pairs, equal, None)
+}
+
+fn value_of<'a, T>(src: &'a Src, mk_owned: &dyn Fn(&'a str) -> Option<T>, mk_borrowed: &dyn Fn(&'a str) -> Option<T>, parse: &dyn Fn(&str) -> Option<GenericPurl<T>>) -> Option<(GenericPurl<T>, String)>
+where
+    T: PurlShape + Clone,
+    T::Error: Debug,
+{
+    let p = match src {
+        Src::Parse(s) => parse(s)?,
+        Src::Build { hist, borrowed } => {
+            let run = run_hist(hist, if *borrowed { mk_borrowed } else { mk_owned })?;
+            obs::build(run.builder?).ok()?
+        },
+    };
+    let s = obs::show(&p).ok()?;
+    Some((p, s))
+}
+
+fn parse_opt<T>(s: &str) -> Option<GenericPurl<T>>
+where
+    T: FromStr + PurlShape,
+    <T as PurlShape>::Error: From<<T as FromStr>::Err> + Debug,
+{
+    obs::parse::<T>(s).ok()
+}
+
+fn no_parse<T>(_: &str) -> Option<GenericPurl<T>> {
+    None
+}
+
+/// Run the batch for one type parameter; returns (pairs, equal pairs, failure with sources).
+pub fn run_batch(tp: &str, srcs: &[Src]) -> (u64, u64, u64, Option<(Fail, Vec<Src>)>) {
+    macro_rules! go {
+        ($t:ty, $own:expr, $bor:expr, $parse:expr) => {{
+            let mut vals = Vec::new();
+            let mut kept = Vec::new();
+            for s in srcs {
+                if let Some(v) = value_of::<$t>(s, $own, $bor, $parse) {
+                    vals.push(v);
+                    kept.push(s.clone());
+                }
+            }
+            let (pairs, equal, f) = match guard("batch comparisons", || check_batch(&vals)) {
+                Out::Ok(r) => r,
+                o => (0, 0, Some((Fail::tagged("panicked", o.kind(), format!("comparison panicked: {}", o.kind())), (0..kept.len()).collect()))),
+            };
+            (pairs, equal, vals.len() as u64, f.map(|(f, idx)| (f, idx.into_iter().map(|i| kept[i].clone()).collect())))
+        }};
+    }
+    match tp {
+        "String" => go!(String, &exec::mk_string, &exec::mk_string, &parse_opt::<String>),
+        "SmallString" => go!(SmallString, &exec::mk_small, &exec::mk_small, &parse_opt::<SmallString>),
+        "Cow" => go!(Cow<str>, &exec::mk_cow_owned, &exec::mk_cow_borrowed, &no_parse::<Cow<str>>),
+        _ => go!(PackageType, &exec::mk_typed, &exec::mk_typed, &parse_opt::<PackageType>),
+    }
+}
+
+fn make_batch(r: &mut Rng, typed: bool) -> Vec<Src> {
+    let mut srcs = Vec::new();
+    let bases = r.range(1, 3);
+    for _ in 0..bases {
+        let ty = if typed { r.pick(&crate::model::KNOWN_TYPES).to_string() } else { r.pick(&["t", "tt", "a.b+c-1"]).to_string() };
+        let base = Ft {
+            ty,
+            ns: if typed || r.coin() { word(r).replace('/', "") + "x" } else { String::new() },
+            name: word(r) + "a-b",
+            ver: if r.coin() { word(r) } else { String::new() },
+            quals: if r.coin() { vec![("k".into(), word(r))] } else { vec![] },
+            sub: if r.coin() { "x/y".into() } else { String::new() },
+        };
+        for v in variants(r, &base, typed) {
+            srcs.push(Src::Build { hist: v.hist(), borrowed: r.coin() });
+        }
+        // several spellings of one tuple, parsed
+        let t = spell::gen_tuple(r, typed);
+        for _ in 0..4 {
+            let mask = spell::random_mask(r);
+            srcs.push(Src::Parse(spell::spell(r, &t, mask).assemble()));
+        }
+        // and its builder-made twin
+        let c = t.comps();
+        let mut h = hist_of(&c.ty, &c.ns.join("/"), &c.name, c.ver.as_deref().unwrap_or(""), &c.quals, &c.sub.join("/"));
+        if let Some(cs) = &t.checksum {
+            h.calls.retain(|x| !matches!(x, Call::Qual(k, _) if k == "checksum"));
+            h.calls.push(Call::Checksum(Some(cs.iter().map(|(a, b)| (a.to_uppercase(), CsVal::Bytes(b.clone()))).collect())));
+        }
+        srcs.push(Src::Build { hist: h, borrowed: false });
+    }
+    r.shuffle(&mut srcs);
+    srcs.truncate(256);
+    srcs
+}
+
+pub fn run(ctx: &mut Ctx) {
+    let mut r = ctx.rng("c19");
+    for b in 0..ctx.share(2_000, 100_000) {
+        let tp = ["String", "SmallString", "Cow", "PackageType"][(b % 4) as usize];
+        let srcs = make_batch(&mut r, tp == "PackageType");
+        let (pairs, equal, n, f) = run_batch(tp, &srcs);
+        ctx.st.count("batches");
+        ctx.st.count(match tp {
+            "String" => "batches:String",
+            "SmallString" => "batches:SmallString",
+            "Cow" => "batches:Cow",
+            _ => "batches:PackageType",
+        });
+        ctx.st.evaluations += pairs;
+        ctx.st.add("pairs-compared", pairs);
+        ctx.st.add("equal-pairs-seen", equal);
+        ctx.st.add("near-collision-values", n);
+        ctx.st.count("set-size-checks");
+        // distinct non-trivial pairs: count per batch the designed near-collision values (bounded bookkeeping)
+        for (i, s) in srcs.iter().enumerate().take(64) {
+            ctx.st.nontrivial(fnv(format!("{tp}{i}{s:?}").as_bytes()));
+        }
+        ctx.st.sample(|| json!({"type_parameter": tp, "batch_size": n, "pairs_compared": pairs, "equal_pairs": equal, "first_sources": srcs.iter().take(3).collect::<Vec<_>>()}));
+        if let Some((f, items)) = f {
+            // shrink: keep only the items needed
+            let items = crate::shrink::shrink_vec(&items, &mut |cs| matches!(run_batch(tp, cs).3, Some((g, _)) if g.kind == f.kind));
+            let g = run_batch(tp, &items).3.map(|(g, _)| g).unwrap_or(f);
+            ctx.st.violation("C19.algebra", format!("C19.algebra:{}:{}", g.kind, tp), g.detail, json!({"type_parameter": tp, "items": items}));
+        }
+    }
+}
+
+pub fn replay(_monitor: &str, case: &Value) -> Result<Option<Fail>, String> {
+    let items: Vec<Src> = serde_json::from_value(case.get("items").cloned().unwrap_or(Value::Null)).map_err(|e| e.to_string())?;
+    Ok(run_batch(str_field(case, "type_parameter")?, &items).3.map(|(f, _)| f))
 }
